@@ -904,6 +904,7 @@ func examineG(rep *Reporter, line string) {
 }
 
 func linesC11(lines []string, rep *Reporter) {
+	historyReplayLines(lines, rep)
 	for _, l := range lines {
 		examineG(rep, l)
 	}
